@@ -81,3 +81,8 @@ def replay_get_parameters(w, obligation, expects):
     diff = compare_source(src)
     return {"reproduced": diff is not None, "detail": f"{src!r}: " + (diff or "agrees with inspect.signature"),
             "signature": "get_parameters:" + src}
+
+
+def replay_handle_function(w, obligation, expects):
+    from replay.C01 import replay_visitor
+    return replay_visitor(w, obligation, dict(expects or {}, clause="handle_function"))
